@@ -36,17 +36,21 @@ def _merge(total, rep):
     total["memo_identities"] = max(total.get("memo_identities", 0), rep.get("memo_identities", 0))
 
 
-def native_shard(binary, seed, count, maxops, profile, samples, workdir, tag):
-    """One process; restarts after a fatal signal, recording the history that died."""
+def native_shard(binary, seed, count, maxops, profile, samples, workdir, tag, env=None, extra=()):
+    """One process; restarts after a fatal signal, recording the history that died.
+    `binary` may be a list (tool prefix + binary, e.g. valgrind)."""
     total, crashes = {}, []
     start = 0
     while start < count:
         prog = os.path.join(workdir, f"progress-{tag}.txt")
-        cmd = [binary, "run", "--seed", str(seed), "--count", str(count), "--start", str(start),
+        cmd = (list(binary) if isinstance(binary, (list, tuple)) else [binary]) + [
+               "run", "--seed", str(seed), "--count", str(count), "--start", str(start),
                "--maxops", str(maxops), "--profile", profile, "--samples", str(samples),
-               "--progress", prog]
+               "--progress", prog] + list(extra)
         try:
-            r = subprocess.run(cmd, stdout=subprocess.PIPE, stderr=subprocess.PIPE, timeout=3600)
+            e = dict(os.environ)
+            e.update(env or {})
+            r = subprocess.run(cmd, stdout=subprocess.PIPE, stderr=subprocess.PIPE, timeout=3600, env=e)
         except subprocess.TimeoutExpired:
             raise Inconclusive(f"pico_mon watchdog fired (seed {seed})")
         rep = _parse_report(r.stdout.decode(errors="replace"))
@@ -61,7 +65,8 @@ def native_shard(binary, seed, count, maxops, profile, samples, workdir, tag):
         died_at = start + max(len(lines) - 1, 0)
         hseed = int(lines[-1]) if lines else None
         crashes.append({"history_seed": hseed, "index": died_at, "returncode": r.returncode,
-                        "stderr_tail": r.stderr.decode(errors="replace")[-600:]})
+                        "stderr_tail": r.stderr.decode(errors="replace")[-600:],
+                        "stderr_head": r.stderr.decode(errors="replace")[:3000]})
         if len(crashes) > 50:
             raise Inconclusive("pico_mon keeps dying")
         start = died_at + 1
@@ -101,7 +106,7 @@ def _miri_build():
 
 def _native_signatures(binary, hseed, maxops, profile):
     r = subprocess.run([binary, "run", "--seed", "0", "--count", "1", "--only-hseed", str(hseed),
-                        "--maxops", str(maxops), "--profile", profile, "--samples", "0"],
+                        "--maxops", str(maxops), "--profile", profile, "--samples", "0", "--quarantine"],
                        stdout=subprocess.PIPE, stderr=subprocess.PIPE, timeout=600)
     rep = _parse_report(r.stdout.decode(errors="replace"))
     if rep is None:
